@@ -1345,6 +1345,11 @@ impl TensorStore {
 
         for key in new_router.scan("") {
             if let Ok(value) = new_router.get(&key) {
+                // The restored keys must be visible through the Bloom filter
+                // (if any), as keys stored with `put` are.
+                if let Some(ref filter) = self.bloom_filter {
+                    filter.add(&key);
+                }
                 // Best-effort restore - continue even if individual entries fail
                 if let Err(e) = self.router.put(&key, value) {
                     tracing::warn!(
